@@ -49,42 +49,68 @@ Theorem C17_seekable_window_refuted : exists c E, 1 <= E <= zlen c /\
 Proof. exists cr_input, cr_E. split; [vm_compute; split; discriminate | exact cr_seek_wrong]. Qed.
 Print Assumptions C17_seekable_window_refuted.
 
-(* 3. pipe_window_correct — the non-seekable window, for EVERY read-ahead of the decoder.  The full
-      statement is FALSE (finding "pipe-reset", D7): the reset at >= 16 KiB discards read-ahead that may
-      contain the offending byte.  Proved instead: whenever the offending byte was NOT discarded
-      (p_start <= E - 1) and all CRs are followed by LF, the line number is right and the excerpt/caret are
-      those of getLineByOffset applied to the input from the window start on. *)
-Definition C17_pipe_window_full : Prop := forall swidth c ends rs rerr E,
-  chunking_ok c ends rs rerr E ->
-  pos_ok swidth c (Z.to_nat (E - 1)) (report_of swidth (pipe_report c (rs ++ [rerr]) (Some E))).
-
-Theorem C17_pipe_window_refuted : exists c ends rs rerr E,
-  chunking_ok c ends rs rerr E /\
-  forall swidth, ~ pos_ok swidth c (Z.to_nat (E - 1)) (report_of swidth (pipe_report c (rs ++ [rerr]) (Some E))).
-Proof. exists d7_input, d7_ends, d7_reads, d7_rerr, d7_E. split; [exact d7_chunking | exact d7_wrong]. Qed.
-Print Assumptions C17_pipe_window_refuted.
-
-Theorem C17_pipe_window_correct_partial : forall swidth c ends rs rerr E,
-  chunking_ok c ends rs rerr E -> crlf_only c = true ->
-  let start := p_start (pipe_run c rs) in
-  start < E ->
-  let '(ex, line, col) := report_of swidth (pipe_report c (rs ++ [rerr]) (Some E)) in
-  line = spec_line c (Z.to_nat (E - 1)) /\
+(* 3. pipe_window_correct — the non-seekable window (CURRENT code, after the repair of D7), for EVERY
+      behaviour of the decoder: any number of bytes read ahead (r_i >= p_i) at every delivered value.
+      Proved under "every CR is followed by LF" (the other case is the finding "cr-window"):
+      (a) the window never drops the offending byte, the line number is the specification's, excerpt and
+          caret are getLineByOffset's on the kept part of the input (to which theorem 1 applies);
+      (b) if the window starts at the beginning or >= 52 bytes before the offending byte and >= 64 bytes
+          after it were read (or the input ends), the report IS getLineByOffset's on the whole input.
+      Without (b)'s room the quoted excerpt may start at the window start instead of 48 bytes before the
+      caret (still a piece of the right line with the caret under the offending byte). *)
+Theorem C17_pipe_window_correct : forall swidth c steps rerr E,
+  chunking_ok c steps rerr E -> crlf_only c = true ->
+  let start := p_start (pipe_run c steps) in
+  let '(ex, line, col) := report_of swidth (pipe_report c steps rerr (Some E)) in
+  0 <= start < E /\ line = spec_line c (Z.to_nat (E - 1)) /\
   (ex, col) = (let '(ex', _, col') := getLineByOffset swidth (ztake (rerr - start) (zdrop start c)) (E - start)
                in (ex', col')).
 Proof. exact pipe_window_kept. Qed.
-Print Assumptions C17_pipe_window_correct_partial.
+Print Assumptions C17_pipe_window_correct.
+
+Theorem C17_pipe_window_exact : forall swidth c steps rerr E,
+  chunking_ok c steps rerr E -> crlf_only c = true ->
+  let start := p_start (pipe_run c steps) in
+  (start = 0 \/ start + 52 <= E - 1) -> (E - 1 + 64 <= rerr \/ rerr = zlen c) ->
+  report_of swidth (pipe_report c steps rerr (Some E)) = getLineByOffset swidth c E.
+Proof. exact pipe_window_exact. Qed.
+Print Assumptions C17_pipe_window_exact.
+
+(* the full statement (no hypothesis on CR) is false for the same reason as in 2. *)
+Definition C17_pipe_window_full : Prop := forall swidth c steps rerr E,
+  chunking_ok c steps rerr E ->
+  pos_ok swidth c (Z.to_nat (E - 1)) (report_of swidth (pipe_report c steps rerr (Some E))).
+
+Theorem C17_pipe_window_cr_refuted : exists c steps rerr E,
+  chunking_ok c steps rerr E /\
+  forall swidth, ~ pos_ok swidth c (Z.to_nat (E - 1)) (report_of swidth (pipe_report c steps rerr (Some E))).
+Proof. exists cr_input, cr_steps, 20012, cr_E. split; [exact cr_chunking | exact cr_pipe_wrong]. Qed.
+Print Assumptions C17_pipe_window_cr_refuted.
 
 (* 4. lexer_offset_token: correspondence level (the lexer is modelled under C08/C09): checked on generated
-      bad queries by the harness (Offset/Token identify bytes of the source, position of the injected token). *)
+      bad queries by the harness (Offset/Token identify bytes of the source, position of the injected token).
+   5. --stream: encoding/json's Token() reports offsets that are not absolute; the model takes the reported
+      offset as a parameter, so theorems 2 and 3 say nothing about --stream (finding "stream-offset"). *)
+
+(* regression example D7: on the reads observed for 164 documents of 100 bytes + {"b": tru } + 1 2 3, the
+   arithmetic before e216f69 (whole buffer dropped) reports line 168 with an empty excerpt; the current
+   arithmetic reports line 165 and quotes the faulty line *)
+Example C17_D7_old_arithmetic_wrong :
+  chunking_ok d7_input d7_steps d7_rerr d7_E /\
+  (forall swidth, ~ pos_ok swidth d7_input (Z.to_nat (d7_E - 1))
+                     (report_of swidth (old_pipe_report d7_input d7_steps d7_rerr (Some d7_E)))) /\
+  (forall swidth, report_of swidth (pipe_report d7_input d7_steps d7_rerr (Some d7_E)) =
+                  (codes "{""b"": tru }", 165, swidth (codes "{""b"": tru"))).
+Proof. split; [exact d7_chunking|]. split; [exact d7_old_wrong | exact d7_now_right]. Qed.
 
 (* non-vacuity: hypotheses are satisfiable and the statements speak about real reports *)
 Example C17_nonvacuous :
   utf8 [228; 184; 150; 97]%N /\ crlf_only (codes "a" ++ [13; 10]%N ++ codes "b") = true /\
   getLineByOffset (fun s => zlen s) (codes "ab" ++ [10%N] ++ codes "cd") 5 = (codes "cd", 2, 1) /\
   spec_line (codes "ab" ++ [13; 10]%N ++ codes "cd") 4 = 2 /\
-  chunking_ok d7_input d7_ends d7_reads d7_rerr d7_E.
+  chunking_ok d7_input d7_steps d7_rerr d7_E /\ crlf_only d7_input = true.
 Proof.
   split; [apply (utf8_app [228; 184; 150]%N); [reflexivity|]; apply (utf8_app [97%N]); [reflexivity|constructor]|].
-  split; [reflexivity|]. split; [vm_compute; reflexivity|]. split; [reflexivity|exact d7_chunking].
+  split; [reflexivity|]. split; [vm_compute; reflexivity|]. split; [reflexivity|].
+  split; [exact d7_chunking|vm_compute; reflexivity].
 Qed.
